@@ -34,7 +34,7 @@ def residual_nnls(matrix: ArrayLike, data: ArrayLike) -> tuple[ArrayLike, ArrayL
     data_scale = np.max(np.abs(data), initial=0.0)
     if data_scale == 0:
         data_scale = 1.0
-    column_scales = np.max(np.abs(matrix), axis=0, initial=0.0)
+    column_scales = np.max(np.abs(matrix), axis=0, initial=0.0).astype(np.float64)
     column_scales[column_scales == 0] = 1.0
     clp, _ = nnls(matrix / column_scales, data / data_scale)
     clp *= data_scale / column_scales
